@@ -29,7 +29,17 @@ def build(cls_name, model, loss, names, overrides, clock, rnd):
                 st = storage_proxy(rnd.choice([UniformReservoirStorage, GeometricReservoirStorage]), clock)(
                     size=rnd.choice([1, 3, 50]), store_targets=rnd.random() < .5)
                 kw["storage"] = st
-                if overrides.get("own_imputer"):
+                if overrides.get("own_imputer") == "separate":
+                    # the imputer draws from a background data set the USER maintains (another storage object); the explainer's own
+                    # storage is still the one explain_one updates, exactly once per call
+                    from ixai.imputer import MarginalImputer
+                    bg = BatchStorage(store_targets=False)
+                    for r_ in range(4):
+                        bg.update({f: 777000 + 1000 * r_ + j for j, f in enumerate(names)})
+                    kw["imputer"] = MarginalImputer(model, "joint", bg)
+                    overrides["_imputer_obj"] = kw["imputer"]
+                    overrides["_background"] = bg
+                elif overrides.get("own_imputer"):
                     from ixai.imputer import MarginalImputer
                     kw["imputer"] = MarginalImputer(model, "joint", st)
                     overrides["_imputer_obj"] = kw["imputer"]
@@ -78,7 +88,7 @@ def main(run):
             if use_over:
                 overrides = {"n_inner": rnd.choice([1, 2, 3]), "alpha": rnd.choice([0.001, 0.3, 1.0]), "dyn": rnd.random() < .5,
                              "storage": True, "interval": rnd.choice([1, 2, 3]), "window": rnd.choice([2, 4]),
-                             "own_imputer": rnd.random() < 0.5}
+                             "own_imputer": rnd.choice([False, True, "separate"])}
             seed = rnd.randrange(2 ** 31)
             random.seed(seed)
             np.random.seed(seed)
@@ -173,6 +183,9 @@ def main(run):
                                 bad.append(("storage-update-order", f"storage update events at {ups} of {len(log)} log entries"))
                         elif ups:
                             bad.append(("storage-update-order", "storage updated although update_storage=False"))
+                        if overrides and overrides.get("_background") is not None and len(overrides["_background"]) != 4:
+                            bad.append(("storage-update-order", f"the user's background storage behind the imputer now holds {len(overrides['_background'])} rows (explain_one "
+                                                                f"updates the explainer's own storage, nothing else)"))
                 if t == 0 and manual_first and not bad:
                     e.update_storage(x, y)          # the user seeds the storage through the public method instead
                 for mech, msg in bad:
